@@ -253,6 +253,11 @@ private:
             if( current_byte & 0x80 ) // run length chunk (high bit = 1)
             {
                 uint8_t chunk_length = current_byte - 127;
+                if( pixel + chunk_length * bytes_per_pixel > image_size )
+                {
+                    io_error( "Run length packet exceeds the image size in targa file." );
+                }
+
                 uint8_t pixel_data[4];
                 for( size_t channel = 0; channel < bytes_per_pixel; ++channel )
                 {
@@ -271,6 +276,11 @@ private:
 
                 // Write the next chunk_length pixels directly
                 size_t pixels_written = chunk_length * bytes_per_pixel;
+                if( pixel + pixels_written > image_size )
+                {
+                    io_error( "Raw packet exceeds the image size in targa file." );
+                }
+
                 this->_io_dev.read( &image_data[pixel], pixels_written );
                 pixel += pixels_written;
             }
